@@ -17,7 +17,7 @@ QUnit  == JsonDeserialize(IOEnv.QUNIT)      \* quantity type |-> unit type
 FreeForms == {"scalar_inplace", "array", "array_inplace", "vector", "vector_inplace", "PlanarVector", "PlanarVector_inplace", "Vector",
               "Vector_inplace", "SymmetricDyad", "SymmetricDyad_inplace", "Dyad", "Dyad_inplace", "static_scalar", "static_array",
               "static_PlanarVector", "static_Vector", "static_SymmetricDyad", "static_Dyad", "identity"}
-AccessorForms == {"construct_in_unit", "Value(unit)", "StaticValue<unit>", "Create<unit>", "Create<unit>(array)", "Print(unit)",
+AccessorForms == {"construct_in_unit", "Value(unit)", "StaticValue<unit>", "Create<unit>", "Create<unit>(array)", "Create<unit>(components)", "Print(unit)",
                   "JSON(unit)", "XML(unit)", "YAML(unit)", "read_back"}
 VARIABLES l, bad, forms, qseen
 vars == <<l, bad, forms, qseen>>
